@@ -26,6 +26,18 @@ def route (servers : List Server) (i : Nat) : Option Server := servers.reverse.f
 def Partition (servers : List Server) (N : Nat) : Prop :=
   ∀ i, 1 ≤ i → i ≤ N → ∃ s ∈ servers, covers s i = true ∧ ∀ s' ∈ servers, covers s' i = true → s' = s
 
+/-- what a caller gets for an island: a server, an error value, or a nil client (whose first use panics) -/
+inductive Lookup where
+  | server (s : Server)
+  | error
+  | nilClient
+  deriving DecidableEq, Repr
+
+def lookup (unroutedIsError : Bool) (servers : List Server) (i : Nat) : Lookup :=
+  match route servers i with
+  | some s => .server s
+  | none => if unroutedIsError then .error else .nilClient
+
 /-- executable form of `Partition` for the driver -/
 def coverCount (servers : List Server) (i : Nat) : Nat := (servers.filter (covers · i)).length
 
